@@ -209,15 +209,12 @@ func isOpaque(v Value) bool {
 func (in *Interp) eqWithNil(t types.Type, x, y Value) *Term {
 	switch t.Underlying().(type) {
 	case *types.Slice:
-		return Bool(x.(Slice).isNil() || y.(Slice).isNil()) // one side is nil by the type checker
+		return Bool(x.(Slice).isNil() && y.(Slice).isNil()) // one side is the nil literal
 	case *types.Map:
 		xm, ym := x.(*Map), y.(*Map)
 		return Bool(xm == ym)
 	case *types.Signature:
 		return Bool(isNilFunc(x) == isNilFunc(y) && (isNilFunc(x) || false))
-	}
-	if sl, ok := x.(Slice); ok {
-		return Bool(sl.isNil())
 	}
 	return equals(x, y)
 }
